@@ -68,22 +68,33 @@ def parseROp (s : String) : Option ROp :=
     | 's' :: n => (String.ofList n).toNat?.map .sub
     | _ => none
 
-def rdText (data : Bytes) (names : List String) (ops : List ROp) : String :=
-  let rec go (s : Bytes) : List String → List ROp → List String
-    | nm :: nms, op :: ops =>
-      match op.run s with
-      | .error _ => [nm ++ "=fault"]
-      | .ok (v, r) =>
-        match v with
-        | .none => (nm ++ "=none:" ++ toString r.length) :: go r nms ops
-        | .num n => (nm ++ "=" ++ toString n ++ ":" ++ toString r.length) :: go r nms ops
-        | .octets b => (nm ++ "=" ++ hex b ++ ":" ++ toString r.length) :: go r nms ops
-        | .unit => (nm ++ "=ok:" ++ toString r.length) :: go r nms ops
-        | .subreader b =>
-          (nm ++ "=" ++ hex b ++ "/" ++ toString b.length ++ "/" ++ (if b.isEmpty then "1" else "0") ++ ":" ++ toString r.length)
-            :: go r nms ops
-    | _, _ => []
-  ";".intercalate (go data names ops)
+def parseNOp (s : String) : Option NOp :=
+  match s.toList with
+  | 'P' :: n => (String.ofList n).toNat?.map .push
+  | ['Q'] => some .pop
+  | _ => (parseROp s).map .op
+
+def rdText (data : Bytes) (names : List String) (ops : List NOp) : String :=
+  let (vs, f) := runNested data [] ops
+  let one (nm : String) (op : NOp) (vn : RVal × Nat) : String :=
+    let (v, n) := vn
+    match op with
+    | .push _ | .pop => nm ++ "=ok:" ++ toString n ++ "/" ++ (if n = 0 then "1" else "0")
+    | .op _ =>
+      match v with
+      | .none => nm ++ "=none:" ++ toString n
+      | .num k => nm ++ "=" ++ toString k ++ ":" ++ toString n
+      | .octets b => nm ++ "=" ++ hex b ++ ":" ++ toString n
+      | .unit => nm ++ "=ok:" ++ toString n
+      | .subreader b => nm ++ "=" ++ hex b ++ "/" ++ toString b.length ++ "/" ++ (if b.isEmpty then "1" else "0") ++ ":" ++ toString n
+  let rec zip3 : List String → List NOp → List (RVal × Nat) → List String
+    | nm :: nms, op :: ops, vn :: vns => one nm op vn :: zip3 nms ops vns
+    | _, _, _ => []
+  let shown := zip3 names ops vs
+  let shown := match f with
+    | none => shown
+    | some _ => shown ++ [(names.getD vs.length "?") ++ "=fault"]
+  ";".intercalate shown
 
 def parseWOp (s : String) : Option WOp :=
   match s.splitOn ":" with
@@ -282,7 +293,7 @@ def run (f : List String) : Option String :=
   | ["rd", d, ops] => do
     let d ← unhex d
     let names := if ops == "." then [] else ops.splitOn ","
-    let ops ← names.mapM parseROp
+    let ops ← names.mapM parseNOp
     some (rdText d names ops)
   | ["wr", ops] => do
     let names := if ops == "." then [] else ops.splitOn ","
